@@ -650,6 +650,9 @@ func (ex *Exec) recordViolation(kind, id, msg, site string, extra *Term) {
 			m[in.Name] = v
 		}
 	}
+	for k, v := range ex.notes {
+		m[k] = v
+	}
 	kinds := map[string]string{}
 	for _, in := range ex.inputs {
 		kinds[in.Name] = in.Kind
